@@ -18,7 +18,7 @@ LEVEL_TEXT = ('all multisets of up to 3 (thorough: 4) entries drawn from 15 date
               'purged by the real trash-empty for 7 DAYS values in 3 kinds of trash dir; purged set must equal the reference set, removals whole, survivors byte-identical')
 LEVEL_NOTE = 'trusted: R6 (reference age rule), the fake clock / TRASH_DATE seams; time zones and DST are out of scope (naive local times, as in the code)'
 RULE = ('DAYS in {none,0,1,2,7,365,4000000} x multisets of size 1..3 (thorough 1..4) over 15 date classes x {home, .Trash/uid, .Trash-uid, entries spread over all three} x clock '
-        'seam {fake datetime.now, TRASH_DATE}; entry names: ordinary, hidden (.e1), trailing blank, two leading dots, by position; each world also holds an orphan payload and a non-.trashinfo file; non-trivial = at least one entry was '
+        'seam {fake datetime.now, TRASH_DATE}; every fifth point with -i answered y; entry names: ordinary, hidden (.e1), trailing blank, two leading dots, by position; each world also holds an orphan payload and a non-.trashinfo file; non-trivial = at least one entry was '
         'examined against the threshold; distinct = (DAYS, date class, observed state) triples')
 NOW = '2024-05-06T07:08:09'
 DAYS = [None, 0, 1, 2, 7, 365, 4000000]
@@ -42,7 +42,8 @@ def cases(tier):
                     seams = ['fake', 'env'] if (tier == 'thorough' and n <= 2) else [('fake', 'env')[i % 2]]
                     i += 1
                     for seam in seams:
-                        out.append({'days': days, 'ms': list(ms), 'td': td, 'seam': seam})
+                        # every fifth point goes through the interactive guard (-i, answered "y"): consent given, the same entries must go
+                        out.append({'days': days, 'ms': list(ms), 'td': td, 'seam': seam, 'ask': i % 5 == 0})
     return out
 
 
@@ -93,7 +94,7 @@ def run_case(c):
     for t in tds:
         W.file(t + '/files/orphan', 'orphan payload\n')
         W.file(t + '/info/README', 'not a trashinfo\n')
-    argv = ['trash-empty'] + ([str(c['days'])] if c['days'] is not None else [])
+    argv = ['trash-empty'] + (['-i'] if c.get('ask') else []) + ([str(c['days'])] if c['days'] is not None else [])
     env = dict(W.env)
     now = NOW
     if c['seam'] == 'env':
@@ -101,7 +102,7 @@ def run_case(c):
         now = '2001-01-01T00:00:00'        # the fake clock says something else; TRASH_DATE must win
     with cell.Sandbox(W.spec()) as sb:
         before = sb.snapshot()
-        r = sb.run(argv, env=env, now=now, cwd='/')
+        r = sb.run(argv, env=env, now=now, cwd='/', stdin='y\n' if c.get('ask') else None)
         after = sb.snapshot()
     detail = {'argv': argv, 'seam': c['seam'], 'exit': r.exit, 'err': r.err[-300:], 'entries': []}
     nts = set()
